@@ -15,6 +15,7 @@ RARE_NAMES = ["d", "x y", "ä", "A", " ", "\t", " a", "a/b",
 TYPES = ["t1", "t2", "n.s.", "T1/sub"]
 TEXTS = [None, "some text", "Some  Text", "other"]
 
+CARD_ATTRS = {"val": "val_cardinality", "sec": "sec_cardinality", "prop": "prop_cardinality"}
 REPOS = ["file:///nowhere/term_a.xml", "file:///nowhere/term_b.xml"]
 
 GOOD_OID = "5b6a1b40-2bd4-4a12-8f3c-0a1b2c3d4e5f"
@@ -752,6 +753,12 @@ class Gen(object):
         if x is None:
             return None
         which = "val" if kind_of(x) == "prop" else self.pick(["sec", "prop"])
+        if self.fault() and self.chance(0.25):
+            # state-directed: the pair the object has now, spelled with numbers that are no integers
+            cur = getattr(x, CARD_ATTRS[which], None)
+            if isinstance(cur, tuple) and len(cur) == 2 and any(isinstance(c, int) for c in cur):
+                twin = [float(c) if isinstance(c, int) else c for c in cur]
+                return {"op": "set_card", "x": self.ref(x), "which": which, "v": {"tuple": twin}}
         if self.chance(0.35):
             lo, hi = self.pick([None, 0, 1, 2]), self.pick([None, 1, 2, 3])
             if self.fault():
@@ -999,6 +1006,19 @@ class Gen(object):
         self._raising_rules = getattr(self, "_raising_rules", 0) + 1
         return {"op": "add_raising_rule", "klass": self.pick(["property", "section"]),
                 "names": [self.pick(self.p.names), self.pick(self.p.names)]}
+
+    def g_deep_chain(self):
+        """A branch nested deeper than a walker's idea of 'deep enough' (33 to 40 levels)."""
+        if getattr(self, "_deep_chains", 0) >= 1 or not self.room(45):
+            return None
+        t = self.pick(self.conts())
+        if t is None or len(self.U.ancestors(t)) > 3:
+            return None
+        name = next((n for n in FRESH if not any(s_.name == n for s_ in t.sections)), None)
+        if name is None:
+            return None
+        self._deep_chains = 1
+        return {"op": "deep_chain", "t": self.cref(t), "name": name, "n": self.rng.randint(33, 40)}
 
     def g_reseed(self):
         return {"op": "reseed", "k": self.pick([0, 1, 42])}
